@@ -9,5 +9,6 @@ rsync -a --delete --exclude 'target*' /verif/harness/ $ALT/harness/
 sed -i "s#/repo/#$ALT/repo/#g" $ALT/harness/Cargo.toml
 ( cd $ALT/repo && patch -p1 -s < "$S/patch.diff" ) || { echo "$1 $PID PATCH FAILED"; exit 2; }
 cd /verif && VERIF_ALT=$ALT ./vcheck $PID --tier $TIER > $ALT/$PID.log 2>&1; rc=$?
+echo "$(date -u +%FT%TZ) $(git -C /verif rev-parse --short HEAD) $1 $PID tier=$TIER rc=$rc $(grep -c '^VIOLATION' $ALT/$PID.log) violations; $(grep -m1 -A1 '^VIOLATION' $ALT/$PID.log | tail -1 | sed 's/^ *//')" >> /verif/seeded/RESULTS.log
 echo "$1 $PID tier=$TIER rc=$rc $(grep -c '^VIOLATION' $ALT/$PID.log) violations; $(grep -m1 -A1 '^VIOLATION' $ALT/$PID.log | tail -1) $(grep -m1 'TOOL-ERROR' $ALT/$PID.log | cut -c1-200)"
 exit $rc
